@@ -711,7 +711,7 @@ class C08(Check):
         'name -> id resolution of child elements (first match in a neighbour list) assumes names unique within their scope',
     ]
     assumptions = ['in-memory (NetworkX) backend; the Neo4j backend is not exercised',
-                   'element names unique within their scope (C07 territory); rename is not part of the histories']
+                   'element names unique within their scope (enforced by the library); histories rename elements, including to equal names in different scopes of one node']
 
 
 # the five formerly refuted statements (stranded sub-interface port, unpeer of non-peered services, disconnect of a
